@@ -298,6 +298,8 @@ pub fn finish(ctx: &Ctx, mut rep: Report, rule: &str, assumptions: &[&str], extr
     let mut new_violations = 0u64;
     let mut known_hit: BTreeSet<String> = BTreeSet::new();
     let dir = format!("{VERIF_DIR}/replays/{id}");
+    // replay files of earlier runs are stale
+    let _ = std::fs::remove_dir_all(&dir);
     let _ = std::fs::create_dir_all(&dir);
     let mut printed = 0;
     for (n, v) in rep.violations.iter().enumerate() {
